@@ -201,7 +201,7 @@ macro_rules! interp {
                 let w: Vec<&str> = line.split_whitespace().collect();
                 let arg = |i: usize| -> usize { w[i].parse().expect("usize arg") };
                 // read-only observations do not reprint the registers (`regs=~` = unchanged)
-                let pure = matches!(w[0], "get" | "index" | "len" | "is_empty" | "view" | "iter" | "bounds" | "tget" | "tlen" | "ptr" | "refs");
+                let pure = matches!(w[0], "get" | "index" | "len" | "is_empty" | "capacity" | "caps" | "view" | "iter" | "bounds" | "tget" | "tlen" | "ptr" | "refs");
                 let (ri, rs): (String, String) = match w[0] {
                     "new" => { let r = reg(w[1]);
                         (exec(0, || { regs[r] = $V::new(); }), exec(1, || { mirs[r] = Vec::new(); })) }
@@ -353,6 +353,28 @@ macro_rules! interp {
                                 ("slicemut", "shared") => fs(tr::smslice::<T, $SM>(&regs[r].as_mut_slice(), b)), ("slicemut", "mut") => fsm(tr::smslice_mut::<T, $SM>(&mut regs[r].as_mut_slice(), b)),
                                 _ => panic!("bad bounds kind") } });
                         let rs = exec(1, || -> String { let ms: &[T] = &mirs[r]; format!("{} inb=true", fmt_cols(&mirror_cols(&ms[b]))) });
+                        (ri, rs) }
+                    // ---- capacity contract (C12)
+                    "reserve" => { let r = reg(w[1]);
+                        (exec(0, || { regs[r].reserve(arg(2)); }), exec(1, || { mirs[r].reserve(arg(2)); })) }
+                    "reserve_exact" => { let r = reg(w[1]);
+                        (exec(0, || { regs[r].reserve_exact(arg(2)); }), exec(1, || { mirs[r].reserve_exact(arg(2)); })) }
+                    "shrink_to_fit" => { let r = reg(w[1]);
+                        (exec(0, || { regs[r].shrink_to_fit(); }), exec(1, || { mirs[r].shrink_to_fit(); })) }
+                    "capacity" => { let r = reg(w[1]); (exec(0, || regs[r].capacity()), exec(1, || {})) }
+                    "caps" => { let r = reg(w[1]);
+                        (exec(0, || { let mut c = vec![]; <T as Shape>::caps(&regs[r], &mut c); format!("{:?}", c).replace(' ', "") }), exec(1, || {})) }
+                    // promise r [n]: push n (default: capacity() - len(), at most 64) elements; did any field array move?
+                    "promise" => { let r = reg(w[1]);
+                        let mut k = 0usize;
+                        let ri = exec(0, || -> String {
+                            let (len, cap) = (regs[r].len(), if w.len() > 2 { regs[r].len() + arg(2) } else { regs[r].capacity() });
+                            k = cap.saturating_sub(len).min(64);
+                            let mut b0 = vec![]; <T as Shape>::bases(&regs[r], &mut b0);
+                            for j in 0..k { regs[r].push(<T as Shape>::make((j % 32) as u32)); }
+                            let mut b1 = vec![]; <T as Shape>::bases(&regs[r], &mut b1);
+                            format!("promise cap_ge_len={} moved={} pushed={}", cap >= len, b0 != b1, k) });
+                        let rs = exec(1, || { for j in 0..k { mirs[r].push(mk(1, j % 32)); } });
                         (ri, rs) }
                     "clonefuse" => { arm_clone_fuse(w[1].parse().unwrap()); (exec(0, || {}), exec(1, || {})) }
                     _ => interp!(@clone $cl, w, regs, mirs, mk, arg, T, $V),
